@@ -9,7 +9,7 @@ import itertools
 
 PROPERTY = 'C07'
 LEVEL = 'translation_validation'
-BUDGET_S = {'quick': 900, 'thorough': 7200}
+BUDGET_S = {'quick': 3600, 'thorough': 14400}
 
 from . import tv, corpus
 
